@@ -2,6 +2,10 @@
 import os, shutil, subprocess, sys, json
 MUT = '/tmp/agents/c07/repo_mut'
 MUTS = {
+ 'R1-projection-reattaches-stored-id': ('collection.py', "doc_copy['_id'] = _copy_field(doc['_id'], container)", "doc_copy['_id'] = doc['_id']"),
+ 'R2-projection-operator-takes-stored-field': ('collection.py', "doc_copy[field] = _copy_field(doc[field], dict)", "doc_copy[field] = doc[field]"),
+ 'R3-insert-returns-stored-id': ('collection.py', "return _copy_field(data['_id'], dict)", "return data['_id']"),
+ 'R4-projection-dict-edited-in-place': ('collection.py', "            fields = dict(fields)\n", "            pass\n"),
  'M1-no-per-doc-copy': ('collection.py', "for k, v in copy.deepcopy(document).items():", "for k, v in document.items():"),
  'M2-copy_field-shallow-lists': ('collection.py', "        for item in obj:\n            new.append(_copy_field(item, container))\n        return new", "        return list(obj)"),
  'M3-insert-stores-callers-dict': ('collection.py', "        data = helpers.patch_datetime_awareness_in_document(data)\n\n        object_id = data['_id']", "        object_id = data['_id']"),
